@@ -390,15 +390,25 @@ fn run_pool(c: &PoolCase) -> Vec<LkObs> {
                 l.xch.clear();
                 l.sleeps.clear();
             });
-            let r = pool.send(request(0)).first_answer().await;
+            // watchdog: the proven bound is timeout + 2 x slowest exchange; a lookup still running
+            // long after that is reported (result 98), not waited for
+            let cap = Duration::from_millis(3 * c.timeout + 1500);
+            let r = tokio::time::timeout(cap, pool.send(request(0)).first_answer()).await;
             let fin_ms = ms_since(t0);
-            let (res, who, _) = classify(&r);
+            let (res, who, _) = match &r {
+                Ok(r) => classify(r),
+                Err(_) => (98, 0, 0),
+            };
             let (xch, sleeps) = LOG.with(|l| {
                 let l = l.borrow();
                 (l.xch.clone(), l.sleeps.clone())
             });
             let drift = unexplained(fin_ms, &xch, &sleeps);
-            out.push(LkObs { res, who, fin_ms, xch, sleeps, drift });
+            let hung = res == 98;
+            out.push(LkObs { res, who, fin_ms, xch, sleeps, drift: if hung { 0.0 } else { drift } });
+            if hung {
+                break;
+            }
         }
     });
     out
@@ -567,6 +577,9 @@ fn pool_oracle(c: &PoolCase, li: usize, o: &LkObs) -> (Option<String>, Option<St
     let t = c.timeout as f64;
     let lmax = c.srvs.iter().flat_map(|s| s.su.iter().chain(s.st.iter())).map(|x| x.1).max().unwrap_or(0) as f64;
     let tcp_loop = c.srvs.iter().any(|s| s.tcp && s.st.iter().any(|x| x.0 == O_TRUNC || x.0 == O_CASE));
+    if o.res == 98 {
+        return (Some(format!("lookup {li}: still running {:.0} ms after it started (timeout {} ms): does not terminate", o.fin_ms, c.timeout)), None);
+    }
     // (1) completion bound that the code can meet: every round starts before the deadline
     if o.fin_ms > t + lmax + 50.0 + SLACK {
         return (Some(format!("lookup {li}: completed after {:.0} ms, timeout {} ms, slowest exchange {} ms", o.fin_ms, c.timeout, lmax)), None);
